@@ -19,6 +19,9 @@ package autodiff
 //@   ite(m.transposed, (m.colOffset + j)*m.rowMax + (m.rowOffset + i), (m.rowOffset + i)*m.colMax + (m.colOffset + j))
 //@ spec inview_$M(m *$M, i int, j int) bool = 0 <= i && i < m.rows && 0 <= j && j < m.cols
 //@ spec elem_$M(m *$M, i int, j int) real = m.values[addr_$M(m, i, j)]
+//@ spec cell_$M(m *$M, p int, q int) int = ite(m.transposed, q*m.rowMax + p, p*m.colMax + q)
+//@ spec inwin_$M(m *$M, p int, q int) bool = m.rowOffset <= p && p < m.rowOffset + m.rows && m.colOffset <= q && q < m.colOffset + m.cols
+//@ spec instore_$M(m *$M, p int, q int) bool = 0 <= p && p < m.rowMax && 0 <= q && q < m.colMax
 
 //@ lemma addr_inrange_$M: forall m *$M, i int, j int :: WF_$M(m) && inview_$M(m, i, j) ==> 0 <= addr_$M(m, i, j) && addr_$M(m, i, j) < len(m.values)
 //@ lemma addr_injective_$M: forall m *$M, i int, j int, k int, l int :: WF_$M(m) && inview_$M(m, i, j) && inview_$M(m, k, l) && addr_$M(m, i, j) == addr_$M(m, k, l) ==> i == k && j == l
@@ -28,6 +31,7 @@ package autodiff
 //@   panics_when i < 0 || j < 0 || i >= matrix.rows || j >= matrix.cols
 //@   ensures result == addr_$M(matrix, i, j)
 //@   ensures 0 <= result && result < len(matrix.values)
+//@   ensures @injective forall p int, q int :: instore_$M(matrix, p, q) && !(p == matrix.rowOffset + i && q == matrix.colOffset + j) ==> result != cell_$M(matrix, p, q)
 //@   pure
 
 //@ spec slice_post_$M(m *$M, r *$M, rfrom int, rto int, cfrom int, cto int) bool =
@@ -116,6 +120,7 @@ package autodiff
 //@   ensures forall j int :: 0 <= j && j < matrix.cols ==> as($V, result)[j] == elem_$M(matrix, i, j)
 //@   modifies nothing
 //@   loop 1 invariant 0 <= j && j <= matrix.cols && fresh(v) && len(v) == matrix.cols && off(v) == 0
+//@   loop 1 invariant j > 0 ==> 0 <= i && i < matrix.rows
 //@   loop 1 invariant forall k int :: 0 <= k && k < j ==> v[k] == elem_$M(matrix, i, k)
 //@   loop 1 invariant forall b int, k int :: b != base(v) ==> row($E, b)[k] == old(row($E, b)[k])
 //@   loop 1 decreases matrix.cols - j
@@ -127,6 +132,7 @@ package autodiff
 //@   ensures forall i int :: 0 <= i && i < matrix.rows ==> as($V, result)[i] == elem_$M(matrix, i, j)
 //@   modifies nothing
 //@   loop 1 invariant 0 <= i && i <= matrix.rows && fresh(v) && len(v) == matrix.rows && off(v) == 0
+//@   loop 1 invariant i > 0 ==> 0 <= j && j < matrix.cols
 //@   loop 1 invariant forall k int :: 0 <= k && k < i ==> v[k] == elem_$M(matrix, k, j)
 //@   loop 1 invariant forall b int, k int :: b != base(v) ==> row($E, b)[k] == old(row($E, b)[k])
 //@   loop 1 decreases matrix.rows - i
@@ -141,18 +147,17 @@ package autodiff
 
 //@ func (*$M).Reset
 //@   requires WF_$M(matrix)
-//@   ensures forall i int, j int :: inview_$M(matrix, i, j) ==> elem_$M(matrix, i, j) == 0
-//@   ensures @frame forall k int :: (forall i int, j int :: inview_$M(matrix, i, j) ==> addr_$M(matrix, i, j) != k) ==> matrix.values[k] == old(matrix.values[k])
+//@   ensures forall p int, q int :: inwin_$M(matrix, p, q) ==> matrix.values[cell_$M(matrix, p, q)] == 0
+//@   ensures @frame forall p int, q int :: instore_$M(matrix, p, q) && !inwin_$M(matrix, p, q) ==> matrix.values[cell_$M(matrix, p, q)] == old(matrix.values[cell_$M(matrix, p, q)])
 //@   modifies []$E@{matrix.values}
 //@   loop 1 invariant 0 <= i && i <= n && n == matrix.rows && m == matrix.cols
-//@   loop 1 invariant forall p int, q int :: 0 <= p && p < i && 0 <= q && q < m ==> elem_$M(matrix, p, q) == 0
-//@   loop 1 invariant forall k int :: (forall p int, q int :: inview_$M(matrix, p, q) ==> addr_$M(matrix, p, q) != k) ==> matrix.values[k] == old(matrix.values[k])
+//@   loop 1 invariant forall p int, q int :: inwin_$M(matrix, p, q) && p < matrix.rowOffset + i ==> matrix.values[cell_$M(matrix, p, q)] == 0
+//@   loop 1 invariant forall p int, q int :: instore_$M(matrix, p, q) && !inwin_$M(matrix, p, q) ==> matrix.values[cell_$M(matrix, p, q)] == old(matrix.values[cell_$M(matrix, p, q)])
 //@   loop 1 invariant forall b int, k int :: b != base(matrix.values) ==> row($E, b)[k] == old(row($E, b)[k])
 //@   loop 1 decreases n - i
 //@   loop 2 invariant 0 <= i && i < n && 0 <= j && j <= m && n == matrix.rows && m == matrix.cols
-//@   loop 2 invariant forall p int, q int :: 0 <= p && p < i && 0 <= q && q < m ==> elem_$M(matrix, p, q) == 0
-//@   loop 2 invariant forall q int :: 0 <= q && q < j ==> elem_$M(matrix, i, q) == 0
-//@   loop 2 invariant forall k int :: (forall p int, q int :: inview_$M(matrix, p, q) ==> addr_$M(matrix, p, q) != k) ==> matrix.values[k] == old(matrix.values[k])
+//@   loop 2 invariant forall p int, q int :: inwin_$M(matrix, p, q) && (p < matrix.rowOffset + i || (p == matrix.rowOffset + i && q < matrix.colOffset + j)) ==> matrix.values[cell_$M(matrix, p, q)] == 0
+//@   loop 2 invariant forall p int, q int :: instore_$M(matrix, p, q) && !inwin_$M(matrix, p, q) ==> matrix.values[cell_$M(matrix, p, q)] == old(matrix.values[cell_$M(matrix, p, q)])
 //@   loop 2 invariant forall b int, k int :: b != base(matrix.values) ==> row($E, b)[k] == old(row($E, b)[k])
 //@   loop 2 decreases m - j
 //@ end
